@@ -309,7 +309,10 @@ def congruence_comparer(comparer_params_eval, student_eval, utils):
 
     expected_reduced = expected % modulus
     input_reduced = student_eval % modulus
-    return utils.within_tolerance(expected_reduced, input_reduced)
+    # The two representatives may sit at opposite ends of the residue interval
+    # (e.g. 0 and modulus - 1e-9), so also compare one modulus up and down
+    return any(utils.within_tolerance(expected_reduced, input_reduced + shift)
+               for shift in (0, modulus, -modulus))
 
 def eigenvector_comparer(comparer_params_eval, student_eval, utils):
     """
